@@ -81,6 +81,8 @@ func (f *reflectGoFunction) Call(ctx context.Context, stack []uint64) {
 
 // callGoFunc executes the reflective function by converting params to Go
 // types. The results of the function call are converted back to api.ValueType.
+var float32Type = reflect.TypeOf(float32(0))
+
 func callGoFunc(ctx context.Context, mod api.Module, fn *reflect.Value, stack []uint64) {
 	tp := fn.Type()
 
@@ -108,7 +110,8 @@ func callGoFunc(ctx context.Context, mod api.Module, fn *reflect.Value, stack []
 
 			switch k {
 			case reflect.Float32:
-				val.SetFloat(float64(math.Float32frombits(uint32(raw))))
+				// Set the float32 directly: a round trip via float64 quiets signalling NaNs.
+				val.Set(reflect.ValueOf(math.Float32frombits(uint32(raw))).Convert(next))
 			case reflect.Float64:
 				val.SetFloat(math.Float64frombits(raw))
 			case reflect.Uint32, reflect.Uint64, reflect.Uintptr:
@@ -126,7 +129,8 @@ func callGoFunc(ctx context.Context, mod api.Module, fn *reflect.Value, stack []
 	for i, ret := range fn.Call(in) {
 		switch ret.Kind() {
 		case reflect.Float32:
-			stack[i] = uint64(math.Float32bits(float32(ret.Float())))
+			// Read the float32 directly: a round trip via float64 quiets signalling NaNs.
+			stack[i] = uint64(math.Float32bits(ret.Convert(float32Type).Interface().(float32)))
 		case reflect.Float64:
 			stack[i] = math.Float64bits(ret.Float())
 		case reflect.Uint32, reflect.Uint64, reflect.Uintptr:
